@@ -18,7 +18,13 @@ FunctionOk(e) ==
         LET x == e.evals[i] IN
         /\ x.ok
         /\ Len(x.scores) = Len(x.text) - 1
-        /\ \A b \in 1..(Len(x.text) - 1) : x.scores[b] = TrainedScore(e.cfg, e.q, e.qbias, x.text, b)
+        \* (i) relational, as C09 states it: bias + learned weight of each feature THE TRAINER EXTRACTS for the boundary
+        \*     (x.feats: the features read back from a trainer for the annotated boundaries, in order)
+        /\ x.feats_ok
+        /\ LET ann == SelectSeq([b \in 1..Len(x.labels) |-> b], LAMBDA b: x.labels[b] # LU) IN
+           /\ Len(x.feats) = Len(ann)
+           /\ \A j \in 1..Len(ann) :
+                 x.scores[ann[j]] = e.qbias + SumSeq([y \in 1..Len(x.feats[j]) |-> x.feats[j][y].cnt * QOf(e.q, x.feats[j][y].f)])
 
 \* ---- C11: the pipeline life-cycle.  stages = <<[st, res]>> in execution order.
 \* Allowed behaviours: new -> err | new -> ok, train -> err | new -> ok, train -> ok and then every later stage ok.
